@@ -399,7 +399,7 @@ class C14(Check):
             sig = {"kind": kind, "method": desc["method"], "rkind": desc.get("kind", "str")}
             viol.append({"sig": sig, "what": f"{desc}: {what}", "detail": detail})
 
-        if res.exit != 0 and "Did not compile" in res.err:
+        if driver.compile_rejected(res):
             if desc["method"].startswith("index-lit@"):
                 # a literal index lets the compiler judge the access itself: refusing an out-of-domain access is a failure in time,
                 # refusing an in-domain one is wrong
